@@ -793,7 +793,7 @@ func selftest(bin, work string, runs, workers int) int {
 		runs = 60
 	}
 	props := []string{}
-	for p := range map[string]bool{"C10": true, "C04": true, "C11": true, "C02": true} {
+	for p := range budgets {
 		props = append(props, p)
 	}
 	sort.Strings(props)
